@@ -18,6 +18,11 @@
 (*   call    r' = T(x)            callip   T(x, out=y)                     *)
 (*   inv     r' = T.inverse(x)    invip    T.inverse(x, out=z)             *)
 (*   plan    T.init_fftw_plan()   temps    T.create_temporaries()          *)
+(*   scribble  the CALLER mutates objects it owns and passed to the        *)
+(*           constructor (axes list, shift list, tmp_r / tmp_f arrays):    *)
+(*           the operator must not change                                  *)
+(* T itself may be a derived operator (T0.inverse.inverse, ...): the option *)
+(* algebra of derivations is module DFTDerive.                              *)
 (***************************************************************************)
 EXTENDS Integers, Sequences, TLC
 
@@ -51,7 +56,7 @@ Acts(h) ==
       \cup {Act("callip", x, "y") : x \in {"x1", "x2", "z", "r"}}
       \cup {Act("inv", x, "r") : x \in {"y", "r"}}
       \cup {Act("invip", x, "z") : x \in {"y", "r"}}
-      \cup {Act("plan", "-", "-"), Act("temps", "-", "-")} : Enabled(h, A) }
+      \cup {Act("plan", "-", "-"), Act("temps", "-", "-"), Act("scribble", "-", "-")} : Enabled(h, A) }
 
 CONSTANT MaxLen
 VARIABLES heap, hist       \* hist: the behaviour so far, << [act, heap after] >>
